@@ -15,10 +15,7 @@ verus! {
 //@include spec/seqlemmas.rs
 pub mod spec {
     use super::*;
-//@item src/spec.rs | const LOCAL_FILE_HEADER_SIGNATURE
-//@item src/spec.rs | const CENTRAL_DIRECTORY_HEADER_SIGNATURE
-//@item src/spec.rs | const ZIP64_BYTES_THR
-//@item src/spec.rs | const ZIP64_ENTRY_THR
+//@include common/spec_consts.rs
 //@item src/spec.rs | struct CentralDirectoryEnd
 //@item src/spec.rs | struct Zip64CentralDirectoryEndLocator
 //@item src/spec.rs | struct Zip64CentralDirectoryEnd
@@ -46,21 +43,16 @@ impl Zip64CentralDirectoryEnd {
 //@use write_central_directory_header nobody
 //@use validate_extra_data nobody
 impl<W: Write + io::Seek> GenericZipWriter<W> {
-// ASSUMED (Verus has no unsizing cast to `&mut dyn Write`): ref_mut hands out the installed writer; whatever is
-// written through it, the installed method stays and the sink below stays usable (every Write operation
-// preserves g_inv).  Content written through it is not tracked here (MaybeEncrypted::write is proved in U7a).
+// ASSUMED (Verus has no unsizing cast to `&mut dyn Write`): ref_mut hands out the installed writer itself (T8 dyn_write):
+// the reference it returns points at this very enum value, so whatever is done through it is done to `self`.
 //@fn gzw_ref_mut
 //@| fn: src/write.rs | impl<W: Write + io::Seek> GenericZipWriter<W> | fn ref_mut
 //@| attr: #[verifier::external_body]
 //@| ret: r
 //@| ensures:
 //@|     ((*old(self)) is Closed) <==> r is None,
-//@|     gzw_method(*final(self)) == gzw_method(*old(self)),
-//@|     !((*old(self)) is Closed) ==> (gzw_sink(*old(self)) is Unencrypted) == (gzw_sink(*final(self)) is Unencrypted),
-//@|     !((*old(self)) is Closed) && gzw_sink(*old(self)).g_inv() ==> gzw_sink(*final(self)).g_inv(),
-//@|     !((*old(self)) is Closed) ==> dev_step(&gzw_sink(*old(self)), &gzw_sink(*final(self))),
-//@|     !((*old(self)) is Closed) && gzw_sink(*old(self)).g_dev() && !gzw_sink(*final(self)).g_fault()
-//@|         ==> gzw_sink(*final(self)).g_pos() >= gzw_sink(*old(self)).g_pos(),
+//@|     r is None ==> *final(self) == *old(self),
+//@|     r matches Some(x) ==> *x == *old(self) && *final(x) == *final(self),
 //@end
 //@use gzw_switch_to nobody
 //@use gzw_is_closed nobody
@@ -147,6 +139,7 @@ fn shim_zw_write_all<W: Write + io::Seek>(w: &mut ZipWriter<W>, buf: &[u8]) -> (
         zw_wf(final(w)) && (zw_room(final(w)) || zw_faulted(final(w)) || final(w).inner is Closed),
         final(w).files@.len() == old(w).files@.len(),
         old(w).files@.len() > 0 ==> entry_identity_kept(old(w).files@.last(), final(w).files@.last()),
+        r is Ok && zw_clean(old(w)) ==> zw_clean(final(w)),
         forall|i: int| 0 <= i < old(w).files@.len() - 1 ==> final(w).files@[i] == old(w).files@[i],
         final(w).writing_to_file == old(w).writing_to_file && final(w).writing_to_extra_field == old(w).writing_to_extra_field
             && final(w).writing_to_central_extra_field_only == old(w).writing_to_central_extra_field_only
@@ -171,6 +164,7 @@ fn shim_zw_write_u16<W: Write + io::Seek>(w: &mut ZipWriter<W>, v: u16) -> (r: i
         zw_wf(final(w)) && (zw_room(final(w)) || zw_faulted(final(w)) || final(w).inner is Closed),
         final(w).files@.len() == old(w).files@.len(),
         old(w).files@.len() > 0 ==> entry_identity_kept(old(w).files@.last(), final(w).files@.last()),
+        r is Ok && zw_clean(old(w)) ==> zw_clean(final(w)),
         final(w).writing_to_file == old(w).writing_to_file && final(w).writing_to_extra_field == old(w).writing_to_extra_field
             && final(w).writing_to_central_extra_field_only == old(w).writing_to_central_extra_field_only
             && final(w).writing_raw == old(w).writing_raw && final(w).comment == old(w).comment,
